@@ -34,7 +34,7 @@ type Op struct {
 
 // Case is a generated history plus schedule.
 type Case struct {
-	Mod   int    `json:"mod"` // custom equality: equal mod Mod (0 = none)
+	Mod   int    `json:"mod"`           // custom equality: equal mod Mod (0 = none)
 	NoZ   bool   `json:"noz,omitempty"` // the custom comparator never calls a zero operand equal to anything (not even to zero)
 	Init  int    `json:"init"`
 	Ops   []Op   `json:"ops"`
